@@ -246,10 +246,12 @@ def c15_tau(rp):
         a = mk_model(name, rp["params"]).rate(mk_game(name, rp["game"]), ranks=_ranks(rp), tau=t)
         b = mk_model(name, rp["params"]).rate(mk_game(name, rp["game"]), ranks=_ranks(rp))
     else:
-        a = mk_model(name, rp["params"]).rate(mk_game(name, rp["game"]), ranks=_ranks(rp), tau=t)
+        la, lb = bool(rp.get("a", False)), rp.get("b")
+        kw = {} if lb is None else {"limit_sigma": bool(lb)}
+        a = mk_model(name, rp["params"], limit_sigma=la).rate(mk_game(name, rp["game"]), ranks=_ranks(rp), tau=t, **kw)
         pb = dict(rp["params"])
         pb["tau"] = rp["t"]
-        b = mk_model(name, pb).rate(mk_game(name, rp["game"]), ranks=_ranks(rp))
+        b = mk_model(name, pb, limit_sigma=(la if lb is None else bool(lb))).rate(mk_game(name, rp["game"]), ranks=_ranks(rp))
     return values(a) != values(b), f"{name}: rate(tau={t!r}) on a model with tau={num(rp['params']['tau'])!r} -> {values(a)[0][0]}, model(tau={t!r}).rate() -> {values(b)[0][0]}"
 
 
@@ -259,7 +261,7 @@ def c15_tau_search(rp, seed):
     for k in range(400):
         t = [0, 0.0, 1e-9, 25 / 300, 5.0, 1][k % 6]
         r2 = dict(rp, t=enc(t), game=rand_game(rnd, [len(x) for x in rp["game"]]))
-        r2["params"] = dict(rp["params"], mu=enc(25.0), sigma=enc(25 / 3), beta=enc(25 / 6), kappa=enc(1e-4), tau=enc(rnd.choice([25 / 300, 0.5, 2.0])))
+        r2["params"] = dict(rp["params"], mu=enc(25.0), sigma=enc(25 / 3), beta=enc(25 / 6), kappa=enc(1e-4), tau=enc(rnd.choice([0.0, 25 / 300, 0.5, 2.0])))
         try:
             bad, msg = c15_tau(r2)
         except Exception:  # noqa: BLE001
